@@ -61,7 +61,7 @@ RULES = (
     {(("L1", "on_enter_state"), "__initial__"): (("a", "b"), 1)},
     {(("model", "ie0"), "__initial__"): (("b",), 1)},
 )
-OPS = ("a", "b", "activate", "re", "re-sv1", "re-sv2")
+OPS = ("a", "b", "activate", "re", "re-sv1", "re-sv2", "old-a")
 
 
 def run_history(cfg, stored_i, sv_i, rules_i, hist):
@@ -77,9 +77,20 @@ def run_history(cfg, stored_i, sv_i, rules_i, hist):
     if msg:
         return f"construct: {msg}", steps
     n = 0
+    prev = None
     for i, op in enumerate(hist):
         steps += 1
-        if op in ("a", "b"):
+        if op == "old-a":
+            # the machine that was replaced by a re-construction is still alive and shares the
+            # model: drive it once more (two machines over one model, e.g. two not yet
+            # activated async machines)
+            if prev is None:
+                continue
+            n += 1
+            prev.ref.value = p.ref.value
+            msg = prev.send("a", {}, tag=f"e{n}")
+            p.ref.value = prev.ref.value
+        elif op in ("a", "b"):
             n += 1
             msg = p.send(op, {}, tag=f"e{n}") or p.check_views()
         elif op == "activate":
@@ -96,6 +107,7 @@ def run_history(cfg, stored_i, sv_i, rules_i, hist):
             msg = q.construct()
             if msg is None and q.impl.sm.model is not model:
                 msg = "re-constructed machine does not use the given model"
+            prev = p
             p = q
         if msg:
             return f"op {i} ({op}): {msg}", steps
